@@ -427,4 +427,47 @@ theorem pid_wrapper_no_data (chk : Bool) (k : PIDK3 F) (p : PidW F) (w : World F
   rw [pid_wrapper_motor_value, h]; rfl
 
 end S
+/-! ### non-vacuity: concrete instances over `Int` payloads -/
+section Examples
+/-- integers as a (law-free) scalar, for examples only -/
+local instance : FloatLike Int := ⟨id, id, fun _ _ => 1, fun x => x.natAbs⟩
+
+/-- terminal 0 (the wrapper's) holds a state, its partner 1 a command -/
+def exW : World Int :=
+  ((((World.empty.addTerms 2).setOther 0 (some 1)).setOther 1 (some 0)).setCommand 1 ⟨5, .position 30⟩).setState 0
+    ⟨7, ⟨1, 2, 3⟩⟩
+/-- nothing anywhere -/
+def exW0 : World Int := World.empty.addTerms 2
+
+example : exW.getTerminalData 0 = some ⟨7, ⟨7, some (.position 30), some ⟨1, 2, 3⟩⟩⟩ := by rfl
+example : exW0.getTerminalData 0 = none := by rfl
+-- `actuator_forwards_exactly`, `actuator_propagates_err`, `actuator_nothing_seen`, `actuator_propagates_update_err`
+example : ActuatorWrapper.update exW 0 (.ok ()) (.ok ()) =
+    (some ⟨7, some (.position 30), some ⟨1, 2, 3⟩⟩, true, .ok ()) :=
+  actuator_forwards_exactly exW 0 _ _ (by rfl)
+example : ActuatorWrapper.update exW 0 (.error (.other 4)) (.ok ()) = (none, false, .error (.other 4)) :=
+  actuator_propagates_err exW 0 _ _ _ (by rfl)
+example : ActuatorWrapper.update exW0 0 (.error (.other 4)) (.ok ()) = (none, true, .ok ()) :=
+  actuator_nothing_seen exW0 0 _ _ (by rfl)
+example : (ActuatorWrapper.update exW 0 (.ok ()) (.error (.other 9))).2 = (true, .error (.other 9)) :=
+  actuator_propagates_update_err exW 0 _ _ (.inr rfl)
+example : (ActuatorWrapper.update exW 0 (.ok ()) (.error (.other 9))).2.2 = .error (.other 9) := by rfl
+-- `encoder_error_only_from_inner`
+example : (EncoderWrapper.update exW 0 (.ok ()) (.error (.other 2))).2 = .error (.other 2) := by rfl
+
+/-- three rounds: data, nothing, data; the motor rejects in the last one -/
+def exRounds : List (Round Int) := [⟨exW, .ok (), .ok ()⟩, ⟨exW0, .ok (), .ok ()⟩, ⟨exW, .error (.other 1), .ok ()⟩]
+def exK : PIDK3 Int := ⟨⟨2, 0, 0⟩, ⟨2, 0, 0⟩, ⟨2, 0, 0⟩⟩
+/-- the wrapper hands the motor `kp * (30 - 1) = 58` in the first two rounds (the second without stepping the PID) and
+nothing in the third, whose return is the motor's rejection -/
+example : wrapperOutputs false exK 0 (PidW.init 0 ⟨0, 0, 0⟩ (.position 0)) exRounds =
+    [(some 58, .ok ()), (some 58, .ok ()), (none, .error (.other 1))] := by rfl
+example : seenTriples (⟨0, 0, 0⟩ : State Int) (.position 0) (exRounds.map (Round.seen 0)) =
+    [(7, ⟨1, 2, 3⟩, .position 30), (7, ⟨1, 2, 3⟩, .position 30)] := by rfl
+-- the hypothesis of `pid_wrapper_pid_never_errs` / `pid_wrapper_error_only_from_motor` holds for every `new` wrapper
+example : ∀ e, (PidW.init 0 (⟨0, 0, 0⟩ : State Int) (.position 0)).pid.us ≠ .error e := pidw_init_no_error _ _ _
+-- hypotheses of `terminalData_spec`, `pid_wrapper_no_data`
+example : exW.getTerminalData 0 ≠ none ∧ exW0.getTerminalData 0 = none := ⟨by simp [show exW.getTerminalData 0 = some _ from rfl], rfl⟩
+end Examples
+
 end Rrtk.Thm.C20
